@@ -80,6 +80,7 @@ Record snap := {
   sn_comps    : list (list Z);        (* get_components(e) for every e of the pool, each sorted *)
   sn_exists   : list bool;            (* entity_exists(e) for every e of the pool *)
   sn_procs    : list Z;               (* world.processors *)
+  sn_prios    : list Z;               (* the priority attribute of each of them, same order *)
   sn_cent     : list (Z * option Z);  (* for every controller: its .entity *)
   sn_world    : bool;                 (* every controller with an entity has .world is this world *)
 }.
@@ -330,6 +331,7 @@ Definition snapshot (K : comps) (pool : list Z) (st : wstate) : snap :=
      sn_comps := map (fun e => isort (map snd (row st e))) pool;
      sn_exists := map (fun e => amem e (ents st) && negb (memz e (dead st))) pool;
      sn_procs := C07Model.processors (pst st);
+     sn_prios := map e_prio (sorted (pst st));
      sn_cent := map (fun k => (k, alookup k (cent st))) (controllers K);
      sn_world := true |}.
 
@@ -349,6 +351,7 @@ Definition snap_eqb (a b : snap) : bool :=
   && list_eqb zs_eqb (sn_comps a) (sn_comps b)
   && list_eqb Bool.eqb (sn_exists a) (sn_exists b)
   && zs_eqb (sn_procs a) (sn_procs b)
+  && zs_eqb (sn_prios a) (sn_prios b)
   && list_eqb cent_eqb (sn_cent a) (sn_cent b)
   && Bool.eqb (sn_world a) (sn_world b).
 
